@@ -17,8 +17,9 @@ META = dict(
     text='Flow files are assembled from symbolic choices of one variant per '
          'feature: Jinja2 (none / set + for loop + expression / raw block, '
          'comment and whitespace control / loop generating continuation '
-         'lines), an include file (none / runtime section / inside a '
-         'section, with its own continuation line), continuation lines '
+         'lines / a backslash that only the template produces), an include '
+         'file (none / runtime section / inside a section, with its own '
+         'continuation line / continuation inside a multi-line value), continuation lines '
          '(none / in a value / in a list / before a comment), multi-line '
          'strings (triple double / triple single quotes with quotes, "#", '
          '"=", brackets and blank lines inside), trailing comments and "#" '
@@ -38,8 +39,9 @@ META = dict(
     functions=['fileparse.parse', 'read_and_proc', '_concatenate',
                'multiline', 'addict', 'addsect', 'include.inline',
                'jinja2support.jinja2process'],
-    bounds=['4 x 3 x 4 x 3 x 3 x 2 x 2 = 1728 texts (quick: 2 of the 4 '
-            'continuation variants)'],
+    bounds=['5 x 4 x 4 x 3 x 3 x 2 x 2 = 2880 texts (quick: 2 of the 4 '
+            'continuation variants: none in the top-level file / before a '
+            'comment)'],
     stubs=['none (scratch source directory)'],
     assumptions=[],
     outside=['spec validation and coercion (parsec/validate.py)',
@@ -60,6 +62,12 @@ JINJA = [
     ('#!jinja2\n', '',
      'R1 = """\n{% for x in ["foo", "bar"] %}            {{ x }} => \\\n'
      '{% endfor %}            baz\n        """'),
+    # a continuation line that only Jinja2 produces (no source line ends in
+    # a backslash)
+    ('#!jinja2\n{% set BS = "\\\\" %}\n',
+     '    [[j]]\n        script = """\n            echo one {{ BS }}\n'
+     '            two\n        """\n',
+     'R1 = "foo => bar"'),
 ]
 INCLUDE = [
     ('', ''),
@@ -67,6 +75,11 @@ INCLUDE = [
      '    [[inc]]\n        script = echo inc \\\n            more\n'),
     ('    [[bar]]\n%include "inc/rt.cylc"\n',
      '        pre-script = echo "# in include"  # comment\n'),
+    # a continuation line that exists only in the include file, inside a
+    # multi-line value
+    ('%include "inc/rt.cylc"\n',
+     '    [[inc2]]\n        script = """\n            echo a \\\n'
+     '            b\n        """\n'),
 ]
 CONT = [
     'script = echo one',
@@ -153,13 +166,13 @@ def idempotent(ji: int, ii: int, ci: int, mi: int, ki: int, ri: int,
                di: int) -> bool:
     """
     pre: sl(ji=ji)
-    pre: 0 <= ji < 4 and 0 <= ii < 3 and 0 <= ci < 4 and 0 <= mi < 3
+    pre: 0 <= ji < 5 and 0 <= ii < 4 and 0 <= ci < 4 and 0 <= mi < 3
     pre: 0 <= ki < 3 and 0 <= ri < 2 and 0 <= di < 2
-    pre: SLICE.get('full', True) or ci in (1, 3)
+    pre: SLICE.get('full', True) or ci in (0, 3)
     pre: not kf('C36.idempotent', ji=ji, ii=ii, ci=ci, mi=mi, ki=ki)
     post: _
     """
-    ji, ii, ci, mi = (fork_int(ji, 0, 3), fork_int(ii, 0, 2),
+    ji, ii, ci, mi = (fork_int(ji, 0, 4), fork_int(ii, 0, 3),
                       fork_int(ci, 0, 3), fork_int(mi, 0, 2))
     ki, ri, di = fork_int(ki, 0, 2), fork_int(ri, 0, 1), fork_int(di, 0, 1)
     with concrete():
@@ -171,7 +184,7 @@ def OBLIGATIONS(tier):
     t = 1200 if big else 170
     return [Ob(f'idempotent[jinja={j}]', 'idempotent', timeout=t,
                twin=(j == 0), slice={'ji': j, 'full': big})
-            for j in range(4)]
+            for j in range(5)]
 
 
 def VALIDATE():
